@@ -96,8 +96,13 @@ fn run_batch(property: &str, batch_seed: u64, first: u64, count: u64, jobs: usiz
                     }
                     let index = first + k;
                     let t = Instant::now();
+                    // a panic of harness code (not of a party step, those are caught as aborts) is a
+                    // harness error of that run, never a violation
                     let scn = props::generate(&property, run_seed(batch_seed, &property, index));
-                    let (res, _) = props::execute(&scn, false);
+                    let res = match std::panic::catch_unwind(std::panic::AssertUnwindSafe(|| props::execute(&scn, false).0)) {
+                        Ok(r) => r,
+                        Err(_) => props::RunResult { harness: Some(format!("harness code panicked in run {index}")), ..Default::default() },
+                    };
                     out.lock().unwrap().push(OneRun { index, scn, res, wall_ms: t.elapsed().as_millis() });
                 })
                 .unwrap(),
